@@ -689,6 +689,7 @@ impl CriticalRequestComponents {
                 let start = range_start.to_string();
                 let end = (range_end - 1).to_string();
                 let bytes = crate::build_bytes!(
+                    b"bytes ",
                     start.as_bytes(),
                     b"-",
                     end.as_bytes(),
